@@ -128,6 +128,7 @@ zerosmm = sym('zerosmm', (T, T), T, lambda a, b: _np.zeros_like(a) @ b)
 arange = sym('arange', (I,), T, lambda n: _np.arange(int(n)))
 vstack3 = sym('vstack3', (T,), T, lambda a: _np.vstack(a))
 uniqueT = sym('uniqueT', (T,), T, None)
+unique_rows = sym('unique_rows', (T,), T, lambda a: _np.unique(a, axis=0))      # np.unique(a, axis=0): the distinct rows, sorted
 unique_inv = sym('unique_inv', (T,), T, None)
 unique_counts = sym('unique_counts', (T,), T, None)
 argsortT = sym('argsortT', (T,), T, lambda a: _np.argsort(a))
